@@ -50,16 +50,39 @@
 
 namespace {
 
-using P = unodb::qsbr_ptr<const std::byte>;
-using S = unodb::qsbr_ptr_span<const std::byte>;
-using StdSpan = std::span<const std::byte>;
+// element type of the wrapped buffers (-DPTR_ELEM=n): the specification speaks of positions in a buffer, the
+// element size must not matter (seed c17d: a span length computed in bytes)
+#ifndef PTR_ELEM
+#define PTR_ELEM 0
+#endif
+#if PTR_ELEM == 0
+using Elem = std::byte;
+inline Elem mk_elem(int v) { return static_cast<std::byte>(v); }
+inline long elem_val(const Elem& e) { return static_cast<long>(e); }
+#elif PTR_ELEM == 1
+using Elem = std::uint32_t;
+inline Elem mk_elem(int v) { return static_cast<std::uint32_t>(v); }
+inline long elem_val(const Elem& e) { return static_cast<long>(e); }
+#else
+struct Elem {   // 24 bytes
+  std::uint64_t a;
+  std::uint32_t v;
+  std::uint32_t b;
+  std::uint64_t c;
+};
+inline Elem mk_elem(int v) { return Elem{0x1111111111111111ULL, static_cast<std::uint32_t>(v), 0x22222222U, 0x3333333333333333ULL}; }
+inline long elem_val(const Elem& e) { return static_cast<long>(e.v); }
+#endif
+using P = unodb::qsbr_ptr<const Elem>;
+using S = unodb::qsbr_ptr_span<const Elem>;
+using StdSpan = std::span<const Elem>;
 
 constexpr int MAXW = 8, MAXS = 8, MAXB = 4, MAXN = 15, PAD = 64;
 
 int NW = 3, NS = 2, NB = 2, N = 4;
 
 // buffers: far apart (never adjacent), element o of buffer b holds 16 b + o + 1
-std::byte g_buf[MAXB + 1][MAXN + 1 + PAD];
+Elem g_buf[MAXB + 1][MAXN + 1 + PAD];
 
 alignas(P) unsigned char g_wmem[MAXW + 1][sizeof(P)];
 alignas(S) unsigned char g_smem[MAXS + 1][sizeof(S)];
@@ -72,15 +95,15 @@ struct Loc {
   int b, o;  // (0,0) null; (-1, x) not inside any buffer
 };
 
-Loc loc(const std::byte* p) {
+Loc loc(const Elem* p) {
   if (p == nullptr) return {0, 0};
   for (int b = 1; b <= NB; ++b) {
-    const std::byte* base = &g_buf[b][0];
+    const Elem* base = &g_buf[b][0];
     if (p >= base && p <= base + N) return {b, static_cast<int>(p - base)};
   }
   return {-1, static_cast<int>(reinterpret_cast<std::uintptr_t>(p) & 0xFFFF)};
 }
-const std::byte* addr(int b, int o) { return b == 0 ? nullptr : &g_buf[b][0] + o; }
+const Elem* addr(int b, int o) { return b == 0 ? nullptr : &g_buf[b][0] + o; }
 
 Loc wloc(int d) { return loc(W(d).get()); }
 Loc sloc(int t) { return loc(SP(t).begin().get()); }
@@ -224,8 +247,8 @@ void execute(int op, int x, int y, int z, int u, std::vector<long>& res, int& re
     case Le: res.push_back(W(x) <= W(y) ? 1 : 0); break;
     case Gt: res.push_back(W(x) > W(y) ? 1 : 0); break;
     case Ge: res.push_back(W(x) >= W(y) ? 1 : 0); break;
-    case Deref: res.push_back(static_cast<long>(*W(x))); break;
-    case Index: res.push_back(static_cast<long>(W(x)[z])); break;
+    case Deref: res.push_back(elem_val(*W(x))); break;
+    case Index: res.push_back(elem_val(W(x)[z])); break;
     case Arrow: {
       const Loc p = loc(W(x).operator->());
       res.push_back(p.b);
@@ -250,8 +273,8 @@ void execute(int op, int x, int y, int z, int u, std::vector<long>& res, int& re
     case SpanElems: {
       // the element sequence as a range-for sees it: begin(), end(), !=, ++, *
       int guard = 0;
-      for (const std::byte e : std::as_const(SP(x))) {
-        res.push_back(static_cast<long>(e));
+      for (const Elem& e : std::as_const(SP(x))) {
+        res.push_back(elem_val(e));
         if (++guard > 4 * MAXN) break;
       }
       break;
@@ -511,7 +534,7 @@ int main(int argc, char** argv) {
   g_shared = static_cast<Shared*>(mmap(nullptr, 4096, PROT_READ | PROT_WRITE, MAP_SHARED | MAP_ANONYMOUS, -1, 0));
   if (g_shared == MAP_FAILED) return 2;
   for (int b = 1; b <= MAXB; ++b)
-    for (int o = 0; o < MAXN + 1 + PAD; ++o) g_buf[b][o] = static_cast<std::byte>(o < N ? 16 * b + o + 1 : 0xEE);
+    for (int o = 0; o < MAXN + 1 + PAD; ++o) g_buf[b][o] = mk_elem(o < N ? 16 * b + o + 1 : 0xEE);
   std::signal(SIGABRT, crash_handler);
   std::signal(SIGSEGV, crash_handler);
   std::signal(SIGBUS, crash_handler);
@@ -531,7 +554,7 @@ int main(int argc, char** argv) {
       data += '[';
       for (int o = 0; o < N; ++o) {
         if (o) data += ',';
-        data += std::to_string(static_cast<int>(g_buf[b][o]));
+        data += std::to_string(elem_val(g_buf[b][o]));
       }
       data += ']';
     }
